@@ -684,6 +684,23 @@ def n_r8_cookies(p: Project, rep: Report):
                 tg = s.targets if isinstance(s, ast.Assign) else [s.target]
                 if any(text(t) == "self.cookiejar" for t in tg):
                     rep.check("N-R8", f"{nm}:rebinds-jar", False, "self.cookiejar is re-bound after construction", loc(p, s))
+    # ... nor by any other function of the package (on whatever object), and nobody empties / edits a jar: the stdlib
+    # cookie processor is the only writer, so what a server set is what is replayed - by that client only
+    JAR_EDITS = ("clear", "clear_session_cookies", "clear_expired_cookies", "set_cookie", "set_cookie_if_ok", "set_policy")
+    for modname, m in p.modules.items():
+        for qn, cls, fn in m.functions():
+            if modname == CLIENT and cls is ci.node and fn.name == "__init__":
+                continue
+            for s in ast.walk(fn):
+                if isinstance(s, (ast.Assign, ast.AugAssign, ast.AnnAssign)):
+                    tg = s.targets if isinstance(s, ast.Assign) else [s.target]
+                    for t in tg:
+                        if isinstance(t, ast.Attribute) and t.attr == "cookiejar" and not (modname == CLIENT and cls is ci.node and text(t) == "self.cookiejar"):
+                            rep.check("N-R8", f"{modname.split('.')[-1]}.{qn}:rebinds-jar", False, f"{text(t)} = {text(s.value)[:50] if getattr(s, 'value', None) is not None else '...'}: a client's cookie jar is replaced after construction - a jar handed to several clients makes one client's cookies appear in another's requests", f"{m.relpath}:{s.lineno}")
+                elif isinstance(s, ast.Call) and text(s.func) == "setattr" and len(s.args) >= 2 and isinstance(s.args[1], ast.Constant) and s.args[1].value == "cookiejar":
+                    rep.check("N-R8", f"{modname.split('.')[-1]}.{qn}:rebinds-jar", False, "setattr(.., 'cookiejar', ..): a client's cookie jar is replaced after construction", f"{m.relpath}:{s.lineno}")
+                elif isinstance(s, ast.Call) and isinstance(s.func, ast.Attribute) and s.func.attr in JAR_EDITS and isinstance(s.func.value, ast.Attribute) and s.func.value.attr == "cookiejar":
+                    rep.check("N-R8", f"{modname.split('.')[-1]}.{qn}:edits-jar:{s.func.attr}", False, f"{text(s)[:60]}: cookies a server set are dropped / changed by the client itself, so they are not replayed on the later requests of that client", f"{m.relpath}:{s.lineno}")
     # module-level jars
     for bname, kind, payload in p.module(CLIENT).bindings:
         if kind == "assign" and isinstance(payload, ast.Call) and (dotted(payload.func) or "").endswith("CookieJar"):
